@@ -13,6 +13,12 @@ plain spelling) or in other letter case (another name: an unknown top-level key)
 (content, type, depth, state_key, event_id, hashes, unsigned, age_ts; the smuggled copy before / after the genuine one; the
 hash as built, the forger's for the smuggled copy, or taken over the text with both copies): the parser must hand out one
 reading of such a text - unredacted only if that reading's content hash matches, else its redacted form - or refuse it.
+A size dimension on top: wire forms LONGER than 65536 bytes whose event proper is not - the small event with 70 KiB, or an
+event of 40 KiB with 30 KiB, put into a key stripped on receipt (unsigned, age_ts, destinations, event_id in room versions
+3+), into redactable material (a content key off the keep-list changed / added, an extra top-level key), into a kept content
+key, into a stripped key and an added content key at once, or between the members as white space: the size limit applies
+to the event that SURFACES (stripped keys and white space gone; redacted first if the hash fails) - so the outcome is the
+untampered event's / its redaction's, and the size error only where that event is itself over the limit.
 code -> spec: seeded random tamperings of random events, re-derived by EventIdentity_trace.tla."""
 from checks.c03 import record_and_validate
 from vlib.core import MachineryError
@@ -48,6 +54,14 @@ def run(ctx):
         "the smuggled copy's name also written with an escape; ID and signatures of such results are not compared; %s" % (
             "all 16 room versions x all shapes" if ctx.tier == "thorough" else
             "room versions 1, 3, 6, 10, 11, 12, org.matrix.msc4014 x 6 shapes (message, empty content, member with third-party invite, create, power levels, redaction)"),
+        "size dimension: sizes are ranks in the specification (event 1, the large content value 40, bulk 30 / 70, limit 64 KiB) "
+        "and KiB in the harness (40 KiB content string zz_big; bulk as a string value, as unsigned.invite_room_state, as an array "
+        "in age_ts, as some 2000 server names in destinations, as 30 / 70 KiB of white space after the opening brace); where the "
+        "specification has the event that surfaces over the limit (bulk in a kept content key, in hashed material under the "
+        "forger's hash, the 40 KiB create event of room versions 11+ - whose content is kept whole - with added content) the "
+        "parser must report EventValidationError{TooLarge, not persistable}; hash {as built, the forger's; garbage with stripped "
+        "keys / padding}; message and create event; %s" % (
+            "all 16 room versions" if ctx.tier == "thorough" else "room versions 1, 3, 6, 10, 11, 12, org.matrix.msc4014"),
         "VerifyEventSignatures of the parsed event is compared with the untampered event's verdict also where that one "
         "does not verify (invite / restricted join signed by the sender's server only; pseudo-ID member events without "
         "mxid_mapping); exception: room version 8, whose redaction drops join_authorised_via_users_server (repaired by "
@@ -58,7 +72,7 @@ def run(ctx):
         "every behaviour of the tamper family of EventIdentity.tla: 16 room versions x 12 event shapes x optional "
         "operation before (%s; after a Redact() only tamper sets of at most one element) x tamper sets of at most %d or at least all-but-one applicable elements out of 11 x 5 "
         "hash modes; plus the spelling and the multiplicity dimension (see the assumptions); distinct = distinct (ID format, redaction algorithm, type, tamper set, hash mode, redacted, "
-        "same-ID, valid signatures, name spelling, name variant and its position; for a member written twice: member, position, spelling, hash mode, outcome)" % (("none / second signature / Redact", 2) if ctx.tier == "quick"
+        "same-ID, valid signatures, name spelling, name variant and its position, size of the event / bulk / refused; for a member written twice: member, position, spelling, hash mode, outcome)" % (("none / second signature / Redact", 2) if ctx.tier == "quick"
                                          else ("none / second signature / SetUnsigned / Redact", 3)))
     fams = ["tamper"] if ctx.tier == "quick" else ["tamper", "tamperfull"]
     ctx.notes["constants"] = ", ".join("EventIdentity_gen_%s_%s.cfg" % (f, ctx.tier) for f in fams)
@@ -88,6 +102,13 @@ def run(ctx):
                 | set((k, "case", "after", hm) for k in names if k not in ("membership", "redacts") for hm in ("keep", "rehash")) \
                 | set((k, "fold", "after", hm) for k in ("sender", "hashes", "signatures", "prev_events", "auth_events", "origin_server_ts")
                       for hm in ("keep", "rehash"))
+            bulk = set((x["proto"]["big"], x["bulk"], t, x["refused"]) for x in r.records if x["fam"] == "tamper" and x["bulk"] != "none"
+                       for t in (x["T"] or ["-"]))
+            wantb = set((b, k, t, False) for (b, k) in (("none", "bulk70"), ("mid", "bulk30"))
+                        for t in ("unsigned", "age_ts", "outdest", "event_id", "con_out_chg", "con_out_add", "top_add")) \
+                | {("none", "pad", "-", False), ("mid", "pad", "-", False), ("none", "bulk70", "con_in", True), ("mid", "bulk30", "con_out_add", True)}
+            if wantb - bulk:
+                raise MachineryError("tamper family lost the size dimension: %s" % sorted(wantb - bulk)[:8])
             if want - spelt or wantd - dups or wantv - variants:
                 raise MachineryError("tamper family lost wire dimensions: spellings %s, duplicated members %s, name variants %s"
                                      % (sorted(want - spelt), sorted(wantd - dups), sorted(wantv - variants)[:8]))
